@@ -380,7 +380,7 @@ func MStore(desc string, obj types.Object, rhs func(f *Fn, e ast.Expr) bool) Mat
 		switch x := n.(type) {
 		case *ast.AssignStmt:
 			for i, l := range x.Lhs {
-				if storeTarget(f.Info, l) != obj {
+				if !f.SameVar(storeTarget(f.Info, l), obj) {
 					continue
 				}
 				if rhs == nil {
@@ -397,7 +397,7 @@ func MStore(desc string, obj types.Object, rhs func(f *Fn, e ast.Expr) bool) Mat
 				}
 			}
 		case *ast.IncDecStmt:
-			return rhs == nil && storeTarget(f.Info, x.X) == obj
+			return rhs == nil && f.SameVar(storeTarget(f.Info, x.X), obj)
 		}
 		return false
 	}}
@@ -608,4 +608,43 @@ func tokIsCompare(t token.Token) bool {
 		return true
 	}
 	return false
+}
+
+// SameVar reports whether o is obj, or — on the interprocedural view — a parameter of an
+// inlined helper that is bound to the local variable obj (the helper works on the caller's
+// variable under another name).
+func (f *Fn) SameVar(o, obj types.Object) bool {
+	if o == obj {
+		return o != nil
+	}
+	if o == nil || obj == nil || f.Subst == nil {
+		return false
+	}
+	v, isVar := obj.(*types.Var)
+	if !isVar || v.IsField() {
+		return false
+	}
+	name, ok := f.Subst[o]
+	if !ok {
+		return false
+	}
+	return name == "local("+v.Name()+")" || name == f.canonOfVar(v)
+}
+
+// canonOfVar is the canonical name of a parameter/receiver variable of f.
+func (f *Fn) canonOfVar(v *types.Var) string {
+	if v == f.Recv {
+		return "recv"
+	}
+	for i, p := range f.Params {
+		if p == v {
+			return fmt.Sprintf("p%d", i)
+		}
+	}
+	return "local(" + v.Name() + ")"
+}
+
+// RefIs reports whether e names the variable/field o (or an inlined helper's alias of it).
+func (f *Fn) RefIs(e ast.Expr, o types.Object) bool {
+	return f.SameVar(refObj(f.Info, e), o)
 }
